@@ -45,13 +45,14 @@ class Log:
         return me.name if me is not None else 'main'
 
     def add(self, e, t=None, **kw):
-        ev = {'e': e, 't': self.us(t), 'who': kw.pop('who', None) or self.who(), 'seq': len(self.items)}
+        tf = self.sched.now if t is None else t
+        ev = {'e': e, 't': self.us(tf), 'tf': tf, 'who': kw.pop('who', None) or self.who(), 'seq': len(self.items)}
         ev.update(kw)
         self.items.append(ev)
         return ev
 
     def sorted(self):
-        return sorted((ev for ev in self.items if not ev.get('dropped')), key=lambda ev: (ev['t'], ev['seq']))
+        return sorted((ev for ev in self.items if not ev.get('dropped')), key=lambda ev: (ev['tf'], ev['seq']))
 
 
 class Chan:
@@ -63,13 +64,17 @@ class Chan:
         self.last = 0.0
         self.open = True        # host side
         self.eof_at = None
+        self.busy_until = 0.0   # the device answers one command after the other
 
     def put(self, t, data, ev=None):
-        t = max(t, self.last)   # in-order delivery
-        if self.eof_at is not None and t > self.eof_at:
+        """enqueue bytes leaving the device at time t (kept in time order; equal times in emission order)"""
+        if self.eof_at is not None and t >= self.eof_at:
             return None         # the device has closed before these bytes left it
-        self.last = t
-        self.items.append([t, data, ev])
+        i = len(self.items)
+        while i > 0 and self.items[i - 1][0] > t:
+            i -= 1
+        self.items.insert(i, [t, data, ev])
+        self.last = max(self.last, t)
         return t
 
     def close_at(self, t):
@@ -134,6 +139,7 @@ class Device:
             ev['dropped'] = True
         else:
             ev['t'] = self.log.us(ta)
+            ev['tf'] = ta
 
     def _eof(self, ch, t):
         if ch.eof_at is None:
@@ -171,14 +177,17 @@ class Device:
                 pos += s
         if pos < len(reply):
             chunks.append(reply[pos:])
-        t = max(now + float(spec.get('delay') or 0), ch.last)
+        t = max(now + float(spec.get('delay') or 0), ch.busy_until)
+        tl = t
         gap = float(spec.get('gap') or 0)
         for i, c in enumerate(chunks):
             if phase == 'mid_reply' and i >= max(1, len(chunks) // 2):
                 break
-            self._emit(ch, t + i * gap, c, n)
+            tl = t + i * gap
+            self._emit(ch, tl, c, n)
+        ch.busy_until = tl
         if phase in ('mid_reply', 'after_reply'):
-            self._eof(ch, ch.last)
+            self._eof(ch, tl)
 
 
 class FakeConn(AsynConn):
